@@ -44,12 +44,25 @@ def seed_table():
             missed += 1
             caught += " **Strengthening:** " + st.replace("|", "/")
         rows.append("| `%s` | %s | %s |" % (n, what, caught))
-    head = ("%d seeded changes are kept (two per property, from 20 fresh sub-agents; each confirmed by `lib/seedconfirm.sh`: the "
+    per_round = {}
+    for n in names:
+        mp = os.path.join(sd, n, "meta.json")
+        if not os.path.exists(mp):
+            continue
+        m = json.load(open(mp))
+        r = (int(n.split("-")[1]) + 1) // 2
+        a = per_round.setdefault(r, [0, 0])
+        a[0] += 1
+        a[1] += 1 if m.get("strengthening") else 0
+    rounds = "; ".join("round %d: %d changes, %d needed strengthening" % (r, a[0], a[1]) for r, a in sorted(per_round.items()))
+    head = (("%d seeded changes are kept (two per property and round, every round from 20 fresh sub-agents; seeds 1-2 are round 1, "
+            "3-4 round 2, and so on: " + rounds.replace("%", "%%") + "; later rounds asked for subtler changes, away from the anchored functions: other "
+            "entry points, interactions of two features, state surviving between inputs, error paths, conversions; each confirmed by `lib/seedconfirm.sh`: the "
             "repository builds and its tests pass with the patch, the author's demonstration fails with it and passes without it). "
             "%d of them were NOT caught by the first version of the check they target (the check exited 0, or died without a "
             "failing input); in every such case the generator / oracle of that check was strengthened - never loosened - until the "
             "change is reported with a failing input, and the unchanged tree still exits 0. `lib/seedrun.sh Cxx seeded/<id>/patch.diff` "
-            "re-runs one against a scratch copy of /repo.\n\n" % (len(rows) - 2, missed))
+            "re-runs one against a scratch copy of /repo.\n\n") % (len(rows) - 2, missed))
     return head + "\n".join(rows) + "\n"
 
 out.append(open(os.path.join(ROOT, "design/tail.md")).read().replace("SEEDED_TABLE_PLACEHOLDER", seed_table()))
